@@ -289,6 +289,18 @@ func wideLRUCase(k *engine.Case) {
 		singleCap = capacity + 1
 		k.Count("lru_cases_one_shard_tight", 1)
 	}
+	multi := false
+	if !tight && r.Intn(7) == 0 {
+		// a few shards, tight capacity per shard: the sharded cache is then rt.n unsharded LRUs
+		// of capacity/n+1 each, and every answer must equal that of the key's own LRU
+		tight, multi = true, true
+		rt.n = uint64(2 + r.Intn(3))
+		per := int64(2 + r.Intn(18))
+		capacity = (per-1)*int64(rt.n) + int64(r.Intn(int(rt.n)))
+		singleCap = per
+		k.Count("lru_cases_few_shards_tight", 1)
+	}
+	roomy := tight && singleCap > 9
 	var wide, single lruAPI
 	name := "cache.WideLRUCache"
 	if useTiny {
@@ -309,7 +321,25 @@ func wideLRUCase(k *engine.Case) {
 		single = cacheAPI(cache.NewSingleLRUCache(singleCap))
 		k.Count("lru_cases_cache", 1)
 	}
-	k.Logf("%s %s capacity=%d vs single LRU", name, rt, capacity)
+	shardOf := map[interface{}]int{}
+	if multi {
+		singles := make([]lruAPI, rt.n)
+		for i := range singles {
+			if useTiny {
+				singles[i] = tinyAPI(tiny.NewSingleLRUCache(singleCap))
+			} else {
+				singles[i] = cacheAPI(cache.NewSingleLRUCache(singleCap))
+			}
+		}
+		single = lruAPI{
+			get:   func(key interface{}) (interface{}, bool) { return singles[shardOf[key]].get(key) },
+			peek:  func(key interface{}) (interface{}, bool) { return singles[shardOf[key]].peek(key) },
+			exist: func(key interface{}) bool { return singles[shardOf[key]].exist(key) },
+			set:   func(key interface{}, id, sz int) { singles[shardOf[key]].set(key, id, sz) },
+			del:   func(key interface{}) bool { return singles[shardOf[key]].del(key) },
+		}
+	}
+	k.Logf("%s %s capacity=%d vs single LRU (one of capacity %d per shard: %v)", name, rt, capacity, singleCap, multi)
 	if r.Intn(8) == 0 {
 		// a capacity below the number of shards (every shard still gets capacity/n+1 >= 1):
 		// one key alive at a time, so nothing is ever evicted and every answer is determined
@@ -343,18 +373,38 @@ func wideLRUCase(k *engine.Case) {
 	}
 	pool := genPool(k, rt, 4+r.Intn(20), "lru")
 	nops := 30 + r.Intn(120)
-	if tight && capacity > 8 {
-		pool = genPool(k, rt, int(capacity)+2+r.Intn(12), "lru")
-		nops = 120 + r.Intn(200)
+	if roomy {
+		pool = genPool(k, rt, int(singleCap)*int(rt.eff())+2+r.Intn(12), "lru")
+		nops = (120 + r.Intn(200)) * int(rt.eff())
+	}
+	ambiguous := func(key *keyT) bool { return multi && !rt.xhash && key.isInt && key.neg }
+	if multi {
+		kept := pool[:0]
+		for i := range pool {
+			if !ambiguous(&pool[i]) {
+				shardOf[pool[i].v] = modelRouteShard(&pool[i], rt)
+				kept = append(kept, pool[i])
+			}
+		}
+		pool = kept
+		if len(pool) == 0 {
+			return
+		}
 	}
 	val := 0
 	for i := 0; i < nops; i++ {
 		key := pickKey(r, pool, rt)
+		if ambiguous(&key) {
+			continue // "modulo shards" of a negative integer has more than one reading
+		}
+		if multi {
+			shardOf[key.v] = modelRouteShard(&key, rt)
+		}
 		switch x := r.Intn(12); {
 		case x < 4:
 			val++
 			sz := r.Intn(9)
-			if tight && capacity > 8 && r.Intn(5) > 0 {
+			if roomy && r.Intn(5) > 0 {
 				sz = 1 + r.Intn(2)
 			}
 			if useTiny && r.Intn(8) == 0 {
